@@ -124,6 +124,8 @@ type Node struct {
 	Seen   map[H]bool // vertices ever observed confirmed on this node
 	Closed bool
 	Synced bool // obtained its ledger through LoadDag
+	// Offer, when set, is how vertices reach this node instead of a direct AddLeaf (e.g. through a gossip handler)
+	Offer func(ctx context.Context, v *accountant.Vertex) error
 	// MaxDebt: per address the largest negative checkpointed net flow seen at any truncation of this node (the
 	// checkpoint stores 0 instead, so the node sees the wallet richer by at most this much)
 	MaxDebt map[string]*big.Int
@@ -496,7 +498,12 @@ func firstLine(s string) string {
 func (w *World) Deliver(n *Node, v *accountant.Vertex, tag string) error {
 	c := CloneVertex(v)
 	w.Hist.Add(c)
-	err := n.Book.AddLeaf(w.Ctx, c)
+	var err error
+	if n.Offer != nil {
+		err = n.Offer(w.Ctx, c)
+	} else {
+		err = n.Book.AddLeaf(w.Ctx, c)
+	}
 	if IsParked(err) {
 		n.Orphans[v.Hash] = true
 	}
